@@ -13,7 +13,7 @@ import (
 )
 
 func init() {
-	register("C18", "Decides the structural clauses of enrichment: (R18.1) in GetReverseDnsForIPs the map key and the lookup argument are both the goroutine's own ip parameter, passed by value at the go statement from the loop variable, the key conversion string(ip) is the one EnrichWithReverseDns applies to the hop's / destination's own address, and the names are assigned to that very hop / destination; (R18.2) the failing branch of the lookup goroutine writes nothing and the function never returns an error, EnrichWithReverseDns returns nothing and never writes a hop list; (R18.3) in every instantiation of cache.GetWithExpiration Cache.Set is reached only on the callback's err == nil edge, the callback is not called on a hit and a hit returns the stored value; (R18.4) GetPublicIP ranges over the provider list in order, returns at the first nil-error answer and continues otherwise, and handleRequest marks the 4xx-status and invalid-body outcomes Permanent; (R18.5) map and accumulator accesses are under the mutex (C14 R14.2). Expiry timing of go-cache, the resolver's answers and completion orders beyond the lockset argument are not decided. No other outcome of a completely received answer that may carry a 4xx status is reported with a retryable error. (R18.3b) The callbacks handed to the cache return a non-nil error on every path on which the error of a call they made is not known to be nil. The goroutine's own address may be a captured per-iteration variable; skipping the empty address is tolerated; names attached through a helper must reach the document's element, not a copy. (R18.5) The fan-out's lookups run outside the shared lock. Each provider is asked under the caller's context, not under one deadline attached before the loop; every kind of owner that gets names has its address in the list handed to the batch lookup. (R18.3) A miss returns what the callback produced: its error when it failed (or the regular entry of the same key that a concurrent caller stored meanwhile), its value when it succeeded. (R18.1) The resolver and the cache are keyed by net.IP.String() of the address; (R18.4) a provider's answer is read to its end (io.ReadAll / a read loop), not with a single Read.", runC18)
+	register("C18", "Decides the structural clauses of enrichment: (R18.1) in GetReverseDnsForIPs the map key and the lookup argument are both the goroutine's own ip parameter, passed by value at the go statement from the loop variable, the key conversion string(ip) is the one EnrichWithReverseDns applies to the hop's / destination's own address, and the names are assigned to that very hop / destination; (R18.2) the failing branch of the lookup goroutine writes nothing and the function never returns an error, EnrichWithReverseDns returns nothing and never writes a hop list; (R18.3) in every instantiation of cache.GetWithExpiration Cache.Set is reached only on the callback's err == nil edge, the callback is not called on a hit and a hit returns the stored value; (R18.4) GetPublicIP ranges over the provider list in order, returns at the first nil-error answer and continues otherwise, and handleRequest marks the 4xx-status and invalid-body outcomes Permanent; (R18.5) map and accumulator accesses are under the mutex (C14 R14.2). Expiry timing of go-cache, the resolver's answers and completion orders beyond the lockset argument are not decided. No other outcome of a completely received answer that may carry a 4xx status is reported with a retryable error. (R18.3b) The callbacks handed to the cache return a non-nil error on every path on which the error of a call they made is not known to be nil. The goroutine's own address may be a captured per-iteration variable; skipping the empty address is tolerated; names attached through a helper must reach the document's element, not a copy. (R18.5) The fan-out's lookups run outside the shared lock. Each provider is asked under the caller's context, not under one deadline attached before the loop; every kind of owner that gets names has its address in the list handed to the batch lookup. (R18.3) A miss returns what the callback produced: its error when it failed (or the regular entry of the same key that a concurrent caller stored meanwhile), its value when it succeeded. (R18.1) The resolver and the cache are keyed by net.IP.String() of the address; (R18.4) a provider's answer is read to its end (io.ReadAll / a read loop), not with a single Read. The value obtained from the cache is only read, and a cache callback does not narrow a fetched address to one family (To4 / To16).", runC18)
 }
 
 // skipsEmptyOnly: block b (a latch that goes back to the loop header without passing the spawn) is reached only under the
